@@ -408,6 +408,12 @@ pub struct DocTest {
     pub behaviour: String,
     /// inline configuration (Markdown only): "" | "stdout" | "stderr" | "combined"
     pub stream: String,
+    /// inline `{detached: true}` (Markdown, process per test): the command is `sleep 0.1`, no exit code is ever observed
+    #[serde(default)]
+    pub detached: bool,
+    /// inline `{timeout: ..ms}`; used with the behaviour "sleep:MS"
+    #[serde(default)]
+    pub timeout_ms: u64,
 }
 
 #[derive(Clone, Debug, Serialize, Deserialize)]
@@ -423,6 +429,9 @@ pub struct DocCase {
     /// Markdown document run with `--cram-compat` (single-script executor, default stream `combined`)
     #[serde(default)]
     pub cram_compat: bool,
+    /// front-matter `total_timeout` in ms (Markdown, only in the detached/timeout family), 0 = none
+    #[serde(default)]
+    pub total_timeout_ms: u64,
     pub tests: Vec<DocTest>,
     #[serde(default)]
     pub family: String,
@@ -526,6 +535,7 @@ fn gen_doc(rng: &mut Rng) -> DocCase {
         cli_stream: String::new(),
         doc_stream: String::new(),
         cram_compat: which == 2,
+        total_timeout_ms: 0,
         tests: vec![],
         family: String::new(),
     };
@@ -559,6 +569,8 @@ fn gen_doc(rng: &mut Rng) -> DocCase {
             expected: None,
             behaviour: String::new(),
             stream: String::new(),
+            detached: false,
+            timeout_ms: 0,
         };
         if rng.chance(1, 5) {
             t.out.clear();
@@ -652,6 +664,41 @@ fn gen_doc(rng: &mut Rng) -> DocCase {
         }
         doc.tests.push(t);
     }
+    // detached test cases before / between ordinary ones, and a later test case that runs into its own time limit
+    // or into the document's: whatever path produces the results, a detached test case (no exit code is ever
+    // observed) is never a success
+    if format == "md" && !doc.cram_compat && doc.doc_stream.is_empty() && signal_at.is_none() && rng.chance(1, 3) {
+        let special = |behaviour: &str, detached: bool, timeout_ms: u64, exps: Vec<ExpSpec>| DocTest {
+            out: vec![],
+            err: vec![],
+            exps,
+            expected: None,
+            behaviour: behaviour.into(),
+            stream: String::new(),
+            detached,
+            timeout_ms,
+        };
+        for _ in 0..1 + rng.below(2) {
+            let pos = rng.below(doc.tests.len() + 1);
+            let exps = if rng.bool() { vec![] } else { vec![ExpSpec::new("glob", "*", "*")] };
+            doc.tests.insert(pos, special("sleep:100", true, 0, exps));
+        }
+        match rng.below(4) {
+            0 => {}
+            k => {
+                // somewhere after the first detached test case
+                let first = doc.tests.iter().position(|t| t.detached).unwrap_or(0);
+                let pos = first + 1 + rng.below(doc.tests.len() - first);
+                if k == 3 {
+                    doc.total_timeout_ms = 400;
+                    doc.tests.insert(pos, special("sleep:2000", false, 0, vec![]));
+                } else {
+                    doc.tests.insert(pos, special("sleep:2000", false, 300, vec![]));
+                }
+            }
+        }
+        doc.family = "detached+timeout".into();
+    }
     if cc_mixed {
         if doc.tests.len() < 2 {
             let mut t = doc.tests[0].clone();
@@ -687,6 +734,9 @@ fn render_doc(doc: &DocCase, sb: &Sandbox) -> Rendered {
     let mut text = String::new();
     let mut payloads = vec![];
     let cram = doc.format == "cram";
+    if !cram && doc.total_timeout_ms > 0 {
+        text.push_str(&format!("---\ntotal_timeout: {}ms\n---\n\n", doc.total_timeout_ms));
+    }
     if !cram && !doc.doc_stream.is_empty() {
         text.push_str(&format!("---\ndefaults:\n  output_stream: {}\n---\n\n", doc.doc_stream));
     }
@@ -708,6 +758,9 @@ fn render_doc(doc: &DocCase, sb: &Sandbox) -> Rendered {
             cmd.push_str(&format!("; exit {n}"));
         } else if let Some(n) = t.behaviour.strip_prefix("subexit:") {
             cmd.push_str(&format!("; (exit {n})"));
+        } else if let Some(ms) = t.behaviour.strip_prefix("sleep:") {
+            let ms: u64 = ms.parse().unwrap_or(100);
+            cmd.push_str(&format!("; sleep {}.{:03}", ms / 1000, ms % 1000));
         }
         if cram {
             text.push_str(&format!("title-t{i}\n  $ {cmd}\n"));
@@ -719,7 +772,17 @@ fn render_doc(doc: &DocCase, sb: &Sandbox) -> Rendered {
             }
             text.push('\n');
         } else {
-            let cfg = if t.stream.is_empty() { String::new() } else { format!(" {{output_stream: {}}}", t.stream) };
+            let mut parts = vec![];
+            if !t.stream.is_empty() {
+                parts.push(format!("output_stream: {}", t.stream));
+            }
+            if t.detached {
+                parts.push("detached: true".to_string());
+            }
+            if t.timeout_ms > 0 {
+                parts.push(format!("timeout: {}ms", t.timeout_ms));
+            }
+            let cfg = if parts.is_empty() { String::new() } else { format!(" {{{}}}", parts.join(", ")) };
             text.push_str(&format!("title-t{i}\n\n```scrut{cfg}\n$ {cmd}\n"));
             for e in &t.exps {
                 text.push_str(&format!("{}\n", e.render()));
@@ -740,10 +803,10 @@ fn doc_sample(doc: &DocCase) -> Value {
         .map(|t| {
             json!({"behaviour": t.behaviour, "stdout": t.out, "stderr": t.err,
                    "expectations": t.exps.iter().map(|e| e.render()).collect::<Vec<_>>(),
-                   "expected_exit_code": t.expected, "inline_output_stream": t.stream})
+                   "expected_exit_code": t.expected, "inline_output_stream": t.stream, "detached": t.detached, "timeout_ms": t.timeout_ms})
         })
         .collect();
-    json!({"part": "e2e", "format": doc.format, "cli": doc.cli_stream, "document_default_stream": doc.doc_stream, "cram_compat": doc.cram_compat, "family": doc.family, "tests": tests})
+    json!({"part": "e2e", "format": doc.format, "cli": doc.cli_stream, "document_default_stream": doc.doc_stream, "cram_compat": doc.cram_compat, "total_timeout_ms": doc.total_timeout_ms, "family": doc.family, "tests": tests})
 }
 
 fn outcome_title(o: &Value) -> String {
@@ -775,6 +838,7 @@ fn check_e2e(env: &Env, doc: &DocCase) -> Checked {
     }
     let fmt = fmt_label(doc);
     let mixed = is_mixed(doc);
+    let lenient = doc.total_timeout_ms > 0;
     let sb = Sandbox::new(env, "c05");
     let r = render_doc(doc, &sb);
     for (name, content) in &r.payloads {
@@ -889,8 +953,31 @@ fn check_e2e(env: &Env, doc: &DocCase) -> Checked {
     for (i, t) in doc.tests.iter().enumerate() {
         let kinds = by_title.get(&format!("title-t{i}")).cloned().unwrap_or_default();
         let success = kinds.iter().any(|k| k == "success");
+        if t.detached {
+            // scrut does not wait for it: no exit code is ever observed, so it is never a success (normally it
+            // gets no result at all, which is not a failure of the run either)
+            nontrivial = true;
+            shape_src.push_str(&format!("|detached:{}", kinds.join("+")));
+            ck = ck.bucket("e2e:detached").bucket(if kinds.is_empty() { "e2e:detached:no-result" } else { "e2e:detached:has-result" });
+            if success {
+                let path = if doc.tests.iter().any(|x| x.behaviour == "sleep:2000") { "with-timeout" } else { "no-timeout" };
+                return Checked::violated(
+                    format!("C05/e2e/detached-test-success/{fmt}/{path}"),
+                    format!("test #{i} is detached (scrut never saw an exit code) but is reported as success: {:?}", doc_sample(doc)),
+                );
+            }
+            continue;
+        }
         if !success {
             any_not_success = true;
+        }
+        if t.behaviour.starts_with("sleep:") {
+            // the command that exceeds a time limit: how that is reported is C14's matter
+            shape_src.push_str(&format!("|sleeper:{}", kinds.join("+")));
+            for k in &kinds {
+                ck = ck.bucket(format!("e2e:sleeper:{k}"));
+            }
+            continue;
         }
         for k in &kinds {
             ck = ck.bucket(format!("e2e:kind:{k}"));
@@ -927,7 +1014,7 @@ fn check_e2e(env: &Env, doc: &DocCase) -> Checked {
         if actual != e {
             nontrivial |= acc;
             ck = ck.bucket("e2e:wrong-code");
-            if mixed && !success {
+            if (mixed || lenient) && !success {
                 // a document the single-script executor cannot serve: only "not a success" is decided
                 continue;
             }
@@ -951,7 +1038,10 @@ fn check_e2e(env: &Env, doc: &DocCase) -> Checked {
             continue;
         }
         if acc {
-            if mixed {
+            if lenient {
+                // the document limit may hit any test case: only "no false success" is decided
+                ck = ck.bucket("e2e:document-limit-pass-direction-unjudged");
+            } else if mixed {
                 // what the combined stream of a script run with separate streams is, is not decided
                 ck = ck.bucket("e2e:mixed-pass-direction-unjudged");
             } else if det == Det::Member {
@@ -1078,6 +1168,7 @@ impl Monitor for C05 {
             ("e2e:fmt=cram".into(), tier.pick(15, 50)),
             ("e2e:fmt=md-cc".into(), tier.pick(12, 40)),
             ("e2e:mixed-refused".into(), tier.pick(6, 15)),
+            ("e2e:detached".into(), tier.pick(5, 15)),
             ("e2e:signal-executed".into(), tier.pick(15, 50)),
             ("e2e:signal-pos=first".into(), tier.pick(3, 10)),
             ("e2e:signal-pos=middle".into(), tier.pick(3, 10)),
@@ -1093,7 +1184,7 @@ impl Monitor for C05 {
             "statuses without an exit code are driven through TestCase::validate for the no-panic clause only; the 'never succeeded' clause is decided end to end".into(),
             "e2e ground truth for 'did not run' is the marker log; bash 5.2: kill -KILL/-TERM/-SEGV/-ABRT $$ ends the shell without an exit code (a 'survived' marker puts the case out of scope)".into(),
             "Cram documents with an executed signalled command are aborted as a whole by design: only 'nothing is a success' and 'exit status != 0' are judged there".into(),
-            "exit code 80 (skip) and timeouts are not generated (C15, C14)".into(),
+            "exit code 80 (skip) is not generated (C15); time limits only in the detached+timeout family: Markdown documents with {detached: true} test cases (sleep 0.1) before / between ordinary ones and, mostly, a later `sleep 2` under {timeout: 300ms} or a 400 ms document limit; judged: a detached test case is never reported as succeeded; how the timed-out command itself is reported is left to C14; under a document limit the other test cases are judged in the 'no false success' direction only".into(),
             "Markdown under --cram-compat (label md-cc): with one stream for all test cases (flag, the same inline configuration everywhere, or nothing = combined) it is judged like a Cram document for that stream; when the test cases disagree on the stream the single-script executor cannot serve the document: a refusal (no report, exit != 0) holds, and if results are reported only 'a success needs the right exit code and its own configured stream accepted' is judged (the pass direction is not decided there)".into(),
         ];
         p
